@@ -44,7 +44,8 @@ verus! {
 //@ kind struct
 //@ end
 
-/// `contains` on value identities (string containment / key membership / element equality): body is `contains_check`
+/// `contains` on value identities (string containment / key membership / element equality): the real `contains_check`
+/// is proved against exactly this contract shape in unit `contains` (there `contains_sem`, defined case by case)
 pub uninterp spec fn contains_spec(a: VId, b: VId) -> Option<bool>;
 #[verifier::external_body]
 fn contains_check(a: &dyn ValueView, b: &dyn ValueView) -> (r: Result<bool>)
